@@ -254,6 +254,9 @@ func safeDecode(r io.Reader, obj any) (err error, panicked any, stack string) {
 }
 
 func execC08rd(w *core.World, p *run.Plan, r *run.Result) {
+	if p.Free {
+		return // the reader engine is single-threaded by construction: nothing for the race detector
+	}
 	ti := p.Get("type", 0) % len(tlTypes)
 	tname := tlTypes[ti].Name
 	g := core.NewRng(core.Mix(p.Seed, 808))
